@@ -26,7 +26,150 @@ HOWS_NAMED = ["filename", "filename-pos", "subclass"]
 #   spooled-mem / spooled-disk      tempfile.SpooledTemporaryFile below / beyond its max_size
 HOWS_KINDS = ["unbuffered", "shortread", "gzipfile", "bz2file", "lzmafile", "spooled-mem", "spooled-disk"]
 HOWS_COMPRESSED = ["gzipfile", "bz2file", "lzmafile"]
+# file objects that can be told to FAIL (notes/SIZE_STRESS.md part 5), shared as well; unarmed they behave like
+# BytesIO / a BufferedReader over a raw stream:
+#   flaky       io.BytesIO subclass whose read / readinto / read1 / readline raises once when armed
+#   flaky-raw   io.BufferedReader over a RawIOBase whose readinto raises once when armed
+HOWS_FLAKY = ["flaky", "flaky-raw"]
 HOW_COUNT = {}
+
+
+class CallerFault(Exception):
+    """a private exception class of the caller (not an OSError, not a ValueError)"""
+
+
+FAULT_KINDS = ["OSError", "ValueError", "KeyError", "private"]
+FAULT_AT = [1, 1, 1, 2, 2, 3, 4, 5, 8, 13, 30]      # the k-th read call after arming raises
+
+
+def make_fault(kind):
+    if kind == "OSError":
+        return OSError(5, "Input/output error (injected by the caller's file object)")
+    if kind == "ValueError":
+        return ValueError("injected by the caller's file object")
+    if kind == "KeyError":
+        return KeyError("injected by the caller's file object")
+    return CallerFault("injected by the caller's file object")
+
+
+class Trigger:
+    """armed: the k-th read call from now raises exc, once"""
+
+    def __init__(self):
+        self.left, self.exc, self.fired = 0, None, False
+
+    def arm(self, k, exc):
+        self.left, self.exc, self.fired = k, exc, False
+
+    def disarm(self):
+        self.left, self.exc = 0, None
+
+    def tick(self):
+        if self.exc is not None:
+            self.left -= 1
+            if self.left <= 0:
+                e, self.exc, self.fired = self.exc, None, True
+                raise e
+
+
+class FlakyBytes(io.BytesIO):
+    def __init__(self, data):
+        super().__init__(data)
+        self.trigger = Trigger()
+
+    def read(self, *a):
+        self.trigger.tick()
+        return super().read(*a)
+
+    def read1(self, *a):
+        self.trigger.tick()
+        return super().read1(*a)
+
+    def readinto(self, b):
+        self.trigger.tick()
+        return super().readinto(b)
+
+    def readline(self, *a):
+        self.trigger.tick()
+        return super().readline(*a)
+
+
+class FlakyRaw(io.RawIOBase):
+    """a seekable raw stream over bytes (full reads) whose readinto fails when armed"""
+
+    def __init__(self, data):
+        super().__init__()
+        self._data, self._pos = data, 0
+        self.trigger = Trigger()
+
+    def readable(self):
+        return True
+
+    def seekable(self):
+        return True
+
+    def readinto(self, b):
+        self.trigger.tick()
+        n = min(len(b), max(0, len(self._data) - self._pos))
+        b[:n] = self._data[self._pos:self._pos + n]
+        self._pos += n
+        return n
+
+    def seek(self, offset, whence=0):
+        self._pos = max(0, offset if whence == 0 else self._pos + offset if whence == 1 else len(self._data) + offset)
+        return self._pos
+
+    def tell(self):
+        return self._pos
+
+
+_TRIGGERS = {}          # id(DebFile object) -> (the object, Trigger of the file object it was given)
+
+
+def trigger_of(deb):
+    t = _TRIGGERS.get(id(deb))
+    return t[1] if t is not None and t[0] is deb else None
+
+
+def forget_trigger(deb):
+    _TRIGGERS.pop(id(deb), None)
+
+
+def obs_faulted(deb, k, kind, call):
+    """run the raw query call() while the file object the caller gave to `deb` is armed to raise at its
+    k-th read.  -> '' when the injected fault did not come out as an exception (it did not fire, it was
+    swallowed, or the query failed for a reason of its own: the caller then asks again, unarmed, and
+    records that answer); otherwise what came out: 'caller' = the injected exception object itself,
+    'DebError' = the package-format error, 'EXC:<class>' anything else"""
+    trig = trigger_of(deb)
+    if trig is None:
+        return ""
+    injected = make_fault(kind)
+    trig.arm(k, injected)
+    try:
+        call()
+    except Exception as e:      # whatever comes out of the code under test is an observation
+        if trig.fired:
+            return came_out(e, injected)
+    finally:
+        trig.disarm()
+    return ""
+
+
+def came_out(e, injected):
+    """'caller' when e is the injected exception object; the class of e when e was raised while handling
+    it / from it (a conversion of the fault); '' when e has nothing to do with it (the fault was swallowed
+    on the way -- tarfile.open(mode='r:*') does that while probing the compression -- and the query then
+    failed for a reason of its own, e.g. KeyError for an absent file)"""
+    if e is injected:
+        return "caller"
+    seen, x = 0, e
+    while x is not None and seen < 20:
+        x = x.__cause__ or x.__context__
+        if x is injected:
+            return classify(e)
+        seen += 1
+    return ""
 
 
 class ShortRaw(io.RawIOBase):
@@ -62,6 +205,8 @@ def pick_how(rnd, p_named, heavy=False):
     heavy: a big package -- not through the compressed wrappers (every backward seek decompresses again)"""
     if rnd.random() < p_named:
         return rnd.choice(HOWS_NAMED)
+    if rnd.random() < 0.3:
+        return rnd.choice(HOWS_FLAKY)
     if rnd.random() < 0.2:
         return rnd.choice([h for h in HOWS_KINDS if not (heavy and (h in HOWS_COMPRESSED or h == "shortread"))])
     return rnd.choice(["fileobj", "fileobj", "fileobj", "fileobj-pos", "fileobj-pos", "realfile"])
@@ -127,11 +272,29 @@ def open_deb(blob, how, work, path=None):
                     """a user subclass that adds nothing"""
                 return PackageReader(filename=path, mode="r"), "ok", path
             return DebFile(filename=path), "ok", path
+        if how in HOWS_FLAKY:
+            return open_flaky(blob, how), "ok", None
         if how == "fileobj-pos":
             return DebFile(None, "r", io.BytesIO(blob)), "ok", None
         return DebFile(fileobj=io.BytesIO(blob)), "ok", None
     except Exception as e:      # observation about the code under test
         return None, classify(e), path
+
+
+def open_flaky(blob, how):
+    from debian.debfile import DebFile
+    if how == "flaky":
+        fobj = FlakyBytes(blob)
+        trig = fobj.trigger
+    else:
+        raw = FlakyRaw(blob)
+        trig = raw.trigger
+        fobj = io.BufferedReader(raw, buffer_size=[512, 8192, 65536][len(blob) % 3])
+    deb = DebFile(fileobj=fobj)
+    if len(_TRIGGERS) > 64:
+        _TRIGGERS.clear()
+    _TRIGGERS[id(deb)] = (deb, trig)
+    return deb
 
 
 def take_how_count():
@@ -272,6 +435,75 @@ def obs_get(part, path, variant=0, disturb=None, rnd=None, plain=None, textok=Fa
     if not isinstance(data, bytes):
         return "EXC:returned-" + type(data).__name__, None
     return "", data
+
+
+AR_KINDS = ["getmember", "getitem", "getmembers", "members", "getnames", "iter", "extractfile"]
+AR_NAMED = ["getmember", "getitem", "extractfile"]
+
+
+def obs_ar(deb, kind, name=None):
+    """one call of the ArFile interface DebFile inherits; only the member TABLE is looked at (name, size),
+    nothing is read through the members.  -> err ('' = the call answered about the member asked for)"""
+    try:
+        if kind == "getmember":
+            m = deb.getmember(name)
+            ok = m.name == name and m.size >= 0
+        elif kind == "getitem":
+            m = deb[name]
+            ok = m.name == name and m.size >= 0
+        elif kind == "extractfile":
+            m = deb.extractfile(name)
+            ok = m is not None and m.name == name
+        elif kind == "getmembers":
+            ok = all(m.size >= 0 for m in deb.getmembers())
+        elif kind == "members":
+            ok = all(m.name is not None for m in deb.members)
+        elif kind == "getnames":
+            ok = "debian-binary" in deb.getnames()
+        else:
+            ok = len([m.name for m in deb]) == len(deb.getnames())
+    except Exception as e:
+        return classify(e)
+    return "" if ok else "EXC:wrong-member"
+
+
+def ar_glance(deb):
+    """every look at the member table there is (used while a file object of a part is half read)"""
+    try:
+        names = list(deb.getnames())
+        for kind in ("getmembers", "members", "iter"):
+            obs_ar(deb, kind)
+        for n in names:
+            for kind in AR_NAMED:
+                obs_ar(deb, kind, n)
+    except Exception:
+        pass
+
+
+def obs_read_begin(part, path, k):
+    """get_file(path) and a read of k bytes -> (err, file object or None, head)"""
+    try:
+        f = part.get_file(path)
+        head = f.read(k)
+    except KeyError:
+        return "", None, None
+    except Exception as e:
+        return classify(e), None, None
+    if not isinstance(head, bytes):
+        return "EXC:returned-" + type(head).__name__, None, None
+    return "", f, head
+
+
+def obs_read_end(f, head):
+    """the remainder of a half-read file -> (err, head + remainder)"""
+    try:
+        rest = f.read()
+        f.close()
+    except Exception as e:
+        return classify(e), None
+    if not isinstance(rest, bytes):
+        return "EXC:returned-" + type(rest).__name__, None
+    return "", head + rest
 
 
 def mutate_result(raw):
